@@ -3106,3 +3106,69 @@ Proof.
 Qed.
 
 End Final.
+
+(* ---- from the boolean hypotheses ---- *)
+Lemma addrs_distinct_nodup seen h :
+  addrs_distinct seen h = true -> NoDup (map fst h) /\ forall a, In a (map fst h) -> ~ In a seen.
+Proof.
+  revert seen. induction h as [|[a n] h IH]; intros seen H; simpl in *.
+  - split; [constructor | intros ? []].
+  - apply andb_true_iff in H. destruct H as [Ha H]. destruct (IH _ H) as [Hn Hs].
+    assert (Hna : ~ In a seen).
+    { intro Hin. apply mem_In in Hin. rewrite Hin in Ha. discriminate. }
+    split.
+    + constructor; [|exact Hn]. intro Hin. apply (Hs a Hin). left. reflexivity.
+    + intros x [<-|Hx]; [exact Hna|]. intro Hin. apply (Hs x Hx). right. exact Hin.
+Qed.
+
+Lemma typed_facts h root :
+  typed h root = true ->
+  NoDup (map fst h) /\ (forall a n, hget h a = Some n -> node_typed h n = true) /\ target_ok h TPtr root = true.
+Proof.
+  unfold typed. intro H. apply andb_true_iff in H. destruct H as [H H3]. apply andb_true_iff in H. destruct H as [H1 H2].
+  split; [apply (addrs_distinct_nodup [] h H1)|]. split; [|exact H3].
+  intros a n Hn. rewrite forallb_forall in H2. apply (H2 (a, n)). apply hget_In. exact Hn.
+Qed.
+
+Lemma nonempty_facts h : no_empty_containers h = true -> forall a n, hget h a = Some n -> container_empty n = false.
+Proof.
+  unfold no_empty_containers. intros H a n Hn. rewrite forallb_forall in H.
+  specialize (H (a, n) (hget_In _ _ _ Hn)). simpl in H. apply negb_true_iff in H. exact H.
+Qed.
+
+Lemma indeg_facts h root dups :
+  indeg_ok h root dups = true ->
+  forall a n, hget h a = Some n -> mem a dups = false -> (occurrences a (root :: all_kids h) <= 1)%nat.
+Proof.
+  unfold indeg_ok. intros H a n Hn Hm. rewrite forallb_forall in H.
+  specialize (H (a, n) (hget_In _ _ _ Hn)). simpl in H. rewrite Hm in H. simpl in H. apply Nat.leb_le in H. exact H.
+Qed.
+
+Lemma reach_none h a : reach h None a -> False.
+Proof. intro H. induction H; [discriminate | assumption]. Qed.
+
+(* unmarshal(marshal(h)) when the validator is switched off *)
+Theorem graph_roundtrip_iso_norules h dups root :
+  typed h root = true -> closed h root = true -> no_empty_containers h = true ->
+  cover_ok h dups = true -> indeg_ok h root dups = true -> N.of_nat (length dups) < 4294967296 ->
+  exists h' root' phi, graph_roundtrip false false h dups root = RtOk h' root' /\ iso phi h root h' root'.
+Proof.
+  intros Hty Hcl Hne Hcov Hin Hsmall.
+  destruct root as [root0|].
+  2:{ exists [], None, (fun a => a). split.
+      - unfold graph_roundtrip, iterate_graph, iterate_tree. destruct (graph_fuel h dups); reflexivity.
+      - split; [reflexivity|]. split; [intros a b Ha; exfalso; eapply reach_none; eauto | intros a Ha; exfalso; eapply reach_none; eauto]. }
+  destruct (typed_facts _ _ Hty) as [Hkeys [Hnode Hroot]].
+  destruct (graph_marshal_terminates h dups false (Some root0) Hcl Hcov) as [t0 [s' Htrav]].
+  assert (Hsrcs : NoDup (tm_srcs t0)).
+  { eapply (srcs_nodup h dups false Hsmall Hkeys (nonempty_facts _ Hne) (rank_of h dups (length h)) (length h)).
+    - intro a. apply rank_of_le.
+    - apply cover_ok_drop. exact Hcov.
+    - apply (indeg_facts _ _ _ Hin).
+    - exact Htrav. }
+  destruct (F_main h dups Hnode (nonempty_facts _ Hne) (closed_kids _ _ Hcl) root0 _ t0 s' Hsmall
+                   (closed_root _ _ Hcl) Hroot Htrav Hsrcs) as [sr' [Er [Hr Hiso]]].
+  eexists. eexists. eexists. split; [|exact Hiso].
+  unfold graph_roundtrip, iterate_graph, iterate_tree. rewrite Htrav. simpl andb. cbv iota.
+  apply build_graph_eff; assumption.
+Qed.
